@@ -457,6 +457,8 @@ func (s *FileSource) streamReader(blockReader *DBinBlockReader, prevLastBlockRea
 		var blk *pbbstream.Block
 		blk, err = blockReader.Read()
 		if err != nil && err != io.EOF {
+			// shut down first: closing `preprocessed` ends this file in run(), which must not go on with the next file
+			s.Shutdown(fmt.Errorf("error processing incoming file %q: %w", incomingBlockFile.filename, err))
 			close(preprocessed)
 			return err
 		}
